@@ -101,3 +101,31 @@ func ZZ_C03_SalamanderReceive() {
 		verifCover("delivered")
 	}
 }
+
+// Reassembly of LARGE chunks: a peer sends every chunk of one message, each as
+// big as a datagram can be, so that the whole exceeds any single datagram (and
+// any fixed scratch size): the receive path delivers or drops it, no panic.
+//
+//verif:harness kind=api unwind=200 preempt=0 bound=chunks∈{2,3,8},chunk∈{1100,1400}B,caller-buffer∈{1500,4096}
+func ZZ_C03_GeckoLargeReassembly() {
+	total := []int{2, 3, 8}[verifChoice("chunks", 3)]
+	size := []int{1100, 1400}[verifChoice("chunkSize", 2)]
+	pc := &zzC03PC{}
+	for i := 0; i < total; i++ {
+		b := make([]byte, geckoHeaderSize+size)
+		b[0] = geckoFlagFragment
+		b[1] = 7
+		b[2] = byte(i)<<4 | byte(total)
+		b[5] = verifByte("first") // payload content does not matter; one symbolic byte per chunk
+		pc.in = append(pc.in, b)
+		pc.from = append(pc.from, zzC03Addr{"a:1"})
+	}
+	g := newGeckoPacketConn(pc, 1200, 1400)
+	buf := make([]byte, []int{1500, 4096}[verifChoice("callerBuf", 2)])
+	k, _, err := g.ReadFrom(buf)
+	if err == nil {
+		verifAssert(k >= 0 && k <= len(buf), "a delivered packet fits the caller's buffer")
+		verifCover("delivered")
+	}
+	g.Close()
+}
